@@ -8,7 +8,7 @@
     expansion of every corpus declaration on every run; the theorems say what a successful check
     means for all raw values, all arguments, all in-range indices and both build profiles
     ([c] ranges over overflow-checks on/off). *)
-From BB Require Import Bits Expr Sym Spec Validate Parse ParseCorrect Enum Prog History Builder Surface DebugFmt Gen GenCorrect BuilderValid Tokens EndToEnd.
+From BB Require Import Bits Expr Sym Spec Validate Parse ParseCorrect Enum Prog History Builder Surface DebugFmt Gen GenCorrect BuilderValid Tokens EndToEnd ParseRegion EnumRegion.
 Open Scope N_scope.
 
 (** ** C01 — getter returns exactly the declared bits *)
@@ -388,6 +388,20 @@ Proof. exact parse_print. Qed.
 Theorem C09_accepted_fields_have_a_parsable_attribute : forall W f,
   accept_field W f = true -> exists r, front f = Some r.
 Proof. exact accept_field_front. Qed.
+
+(** C09 / C10, the functions against which the translation of the macro's own source is proved on every run (DESIGN 3.7) are
+    exactly the corresponding parts of the decision models: a field is accepted iff its attribute has the right shape, its
+    type is spelled in a supported way, the numeric checks [region_checks] pass and a custom type has the selected width *)
+Theorem C09_numeric_checks_are_the_arithmetic_part_of_accept_field : forall W f,
+  accept_field W f = true ->
+  exists rs sz, type_size (f_ty f) = Some sz /\ region_checks W rs sz (f_count f) (f_stride f) = true.
+Proof. exact accept_field_region_true. Qed.
+
+Theorem C10_count_checks_are_the_arithmetic_part_of_enum_accept : forall e,
+  enum_accept e = true ->
+  enum_cfg_check (existsb v_cfg (en_variants e)) (exh_of e) = true /\
+  enum_count_checks (en_bits e) (N.of_nat (List.length (en_variants e))) (exh_of e) = true.
+Proof. exact enum_accept_region_true. Qed.
 
 (** C13 per program: the builder step the model expects calls the real with_ methods in order, element by element *)
 Theorem C13_expected_step_performs_the_with_calls : forall d s vs,
